@@ -103,6 +103,8 @@ class C12(ParserSessionProp):
             else:
                 other = 'ja' if lang == 'en' else 'en'
                 plan.append({'format': fmt, 'create_lang': lang, 'consume_lang': other})
+        for step in plan:
+            step['guess_extension'] = rng.random() < 0.3
         spec['reader_plan'] = plan
         return spec
 
@@ -135,7 +137,11 @@ class C12(ParserSessionProp):
                 with open(path, 'w', encoding='utf-8') as f:
                     f.write(text)
                 set_global_language_to(step['create_lang'])
-                it = readers[fmt](path)
+                if step.get('guess_extension'):
+                    it = R.read_trees_guess_extension(path)
+                    bump(stats, 'probe:reader_chosen_by_file_extension')
+                else:
+                    it = readers[fmt](path)
                 set_global_language_to(step['consume_lang'])
                 if step['create_lang'] != step['consume_lang']:
                     bump(stats, 'fault:F9_language_switched_between_create_and_consume')
